@@ -22,6 +22,9 @@ package agent
 //   dup-on-live     : connection 0 is established and has state; a duplicate is registered concurrently
 //   flap-<f>[-n]    : connection 0 is established and has state; failure f; n redial threads register a
 //                     new connection each as soon as the old transport was closed by M (fast reconnect)
+//   sleep-redial / kick-redial : connection 0 is established and has state; the main thread calls the real
+//                     Manager.DisconnectAll() (enterSleep) / Manager.Disconnect(id), which remove it from the table and
+//                     close it; the redial registers a new connection while the old loops have not reported yet
 // The main thread sleeps on the virtual clock until every other thread is blocked, evaluates the end
 // oracle, closes everything and waits for the loops.
 //
@@ -55,6 +58,10 @@ type c32Script struct {
 	// it was accepted (as in part A), instead of travelling wire -> readLoop -> frameCh -> drainFrames ->
 	// OnFrame; the connection then has no frame worker. Fewer threads, so a deeper bound is affordable.
 	Direct bool
+	// Detach: instead of a transport failure the main thread takes connection 0 out of the table with the
+	// real Manager.Disconnect(id) ("disconnect") or Manager.DisconnectAll() ("disconnectall", enterSleep);
+	// the loops of connection 0 report afterwards, racing the redial.
+	Detach string
 }
 
 var c32Scripts = []c32Script{
@@ -70,6 +77,8 @@ var c32Scripts = []c32Script{
 	{Name: "flap-rd-min", Pre: true, Fail: "rd", Redials: 1, Direct: true, Open: true},
 	{Name: "flap-clk-min", Pre: true, Fail: "clk", Redials: 1, Direct: true, Open: true},
 	{Name: "flap-rd+wr-min", Pre: true, Fail: "rd+wr", Redials: 1, Direct: true, Open: true},
+	{Name: "sleep-redial", Pre: true, Detach: "disconnectall", Redials: 1, Direct: true, Open: true},
+	{Name: "kick-redial", Pre: true, Detach: "disconnect", Redials: 1, Direct: true, Open: true},
 }
 
 func c32ScriptByName(n string) (c32Script, bool) {
@@ -147,6 +156,7 @@ func c32SchedRunRep(r *vmc.Result, sc c32Script, timerCost int, c *vmc.Chooser, 
 	returned := make([]bool, nconn)
 	reports := make([]int, nconn)
 	closedAt := c32ClosedAt(nconn)
+	detached := make([]string, nconn)
 	finished := false
 	idx := func(c *peer.Connection) int {
 		for i, x := range conns {
@@ -177,7 +187,7 @@ func c32SchedRunRep(r *vmc.Result, sc c32Script, timerCost int, c *vmc.Chooser, 
 			if err != nil && err != peer.ErrC32Closed && err.Error() != "read: connection reset" {
 				kind = "ka"
 			}
-			c32TeardownPeek(r, nt, own, conns, k, kind, reports[k], closedAt, rep, next, func() *peer.Connection { return mgr.C32Peek(pid) })
+			c32TeardownPeek(r, nt, own, conns, k, kind, reports[k], closedAt, detached, rep, next, func() *peer.Connection { return mgr.C32Peek(pid) })
 		},
 		func(c *peer.Connection, f *protocol.Frame, next func()) {
 			k := idx(c)
@@ -265,6 +275,14 @@ func c32SchedRunRep(r *vmc.Result, sc c32Script, timerCost int, c *vmc.Chooser, 
 				wires[0].FailWrite(fmt.Errorf("write: broken pipe"))
 			case "clk":
 				sched.Advance(2 * interval)
+			}
+			switch sc.Detach {
+			case "disconnect":
+				detached[0] = sc.Detach
+				mgr.Disconnect(pid)
+			case "disconnectall":
+				detached[0] = sc.Detach
+				mgr.DisconnectAll()
 			}
 		}
 		for i := 0; i < sc.Dups; i++ {
@@ -355,11 +373,15 @@ func c32Plans(r *vmc.Result) []c32Plan {
 		return []c32Plan{
 			{"dup-on-live", 2, 2}, {"flap-wr-min", 2, 2}, {"flap-rd-min", 2, 2}, {"flap-clk-min", 2, 2}, {"flap-rd+wr-min", 2, 2},
 			{"dial+accept", 2, 2}, {"flap-wr", 1, 2}, {"flap-rd", 1, 2}, {"flap-clk", 1, 2}, {"flap-rd+wr", 1, 2}, {"flap-wr-2", 0, 2},
+			// bound 0 only: with one preemption inside handleDisconnect these scripts would re-find the open
+			// known finding (cleanup callback delayed past a re-registration) under a new name
+			{"sleep-redial", 0, 2}, {"kick-redial", 0, 2},
 		}
 	}
 	return []c32Plan{
 		{"dup-on-live", 1, 2}, {"flap-wr-min", 1, 2}, {"flap-rd-min", 1, 2}, {"flap-clk-min", 1, 2}, {"flap-rd+wr-min", 1, 1},
 		{"dial+accept", 1, 2}, {"flap-wr", 0, 2}, {"flap-rd", 0, 2}, {"flap-clk", 0, 2},
+		{"sleep-redial", 0, 2}, {"kick-redial", 0, 2},
 	}
 }
 
